@@ -107,10 +107,26 @@ func runC08(c *Case) {
 				if rp, _ := iv.Details["receive_progress"].(bool); rp {
 					n = 3
 				}
-				for k := 1; k <= n; k++ {
-					cal.Send(&wamp.Yield{Request: iv.Request, Options: wamp.Dict{"progress": true}, Arguments: wamp.List{"prog", k}})
+				// every 4th call is answered in payload passthru mode (the details the router adds must not cost the progress flag)
+				ppt := false
+				if len(iv.Arguments) >= 3 {
+					cn, _ := canon.AsID(iv.Arguments[2])
+					ppt = cn%4 == 0
 				}
-				cal.Send(&wamp.Yield{Request: iv.Request, Options: wamp.Dict{}, Arguments: append(wamp.List{"final"}, iv.Arguments...)})
+				yopts := func(progress bool) wamp.Dict {
+					o := wamp.Dict{}
+					if progress {
+						o["progress"] = true
+					}
+					if ppt {
+						o["ppt_scheme"], o["ppt_serializer"] = "x_verif", "native"
+					}
+					return o
+				}
+				for k := 1; k <= n; k++ {
+					cal.Send(&wamp.Yield{Request: iv.Request, Options: yopts(true), Arguments: wamp.List{"prog", k}})
+				}
+				cal.Send(&wamp.Yield{Request: iv.Request, Options: yopts(false), Arguments: append(wamp.List{"final"}, iv.Arguments...)})
 			})
 		}
 		// initial state
@@ -118,8 +134,10 @@ func runC08(c *Case) {
 			k := subKeys[i%len(subKeys)]
 			s.Send(&wamp.Subscribe{Request: 1, Options: optMatch(k[1]), Topic: wamp.URI(k[0])})
 		}
+		sharedReg := make([]bool, len(callees)) // callees that register with a sharing policy and repeat their REGISTER
 		for i, cal := range callees {
-			cal.Send(&wamp.Register{Request: 1, Options: wamp.Dict{}, Procedure: wamp.URI(fmt.Sprintf("proc.%d", i))})
+			sharedReg[i] = chance(r, 50)
+			cal.Send(&wamp.Register{Request: 1, Options: regOpts(sharedReg[i]), Procedure: wamp.URI(fmt.Sprintf("proc.%d", i))})
 		}
 		w.Wait()
 		// ---- the burst: everything is queued, then released together (the puppets' writers run concurrently)
@@ -187,17 +205,25 @@ func runC08(c *Case) {
 			cal := cal
 			orig := cal.OnMsg
 			regs := 0
+			shared := sharedReg[i]
 			proc := wamp.URI(fmt.Sprintf("proc.%d", i))
 			cal.SetOnMsg(func(m wamp.Message) {
 				orig(m)
 				switch x := m.(type) {
 				case *wamp.Registered:
+					if x.Request%2 == 1 && x.Request > 1 {
+						return // the answer to the repeated REGISTER of a shared registration (same id): one UNREGISTER per round
+					}
 					regs++
 					if regs <= churnRounds && x.Request > 1 {
 						cal.Send(&wamp.Unregister{Request: 2000 + x.Request, Registration: x.Registration})
 					}
 				case *wamp.Unregistered:
-					cal.Send(&wamp.Register{Request: wamp.ID(10 + regs), Options: wamp.Dict{}, Procedure: proc})
+					cal.Send(&wamp.Register{Request: wamp.ID(10 + 2*regs), Options: regOpts(shared), Procedure: proc})
+					if shared {
+						// a member repeating its REGISTER is told the same id and stays a single member
+						cal.Send(&wamp.Register{Request: wamp.ID(11 + 2*regs), Options: regOpts(shared), Procedure: proc})
+					}
 				}
 			})
 			if chance(r, 70) {
@@ -425,4 +451,12 @@ func optMatch(m string) wamp.Dict {
 		return wamp.Dict{}
 	}
 	return wamp.Dict{"match": m}
+}
+
+
+func regOpts(shared bool) wamp.Dict {
+	if shared {
+		return wamp.Dict{"invoke": "roundrobin"}
+	}
+	return wamp.Dict{}
 }
